@@ -162,6 +162,44 @@ CHECKS.update({
             "Alphabet of 4+4 characters; successors holding an alternate character are checked but not expanded (symmetry).", "DESIGN.md §4 C12"),
 })
 
+CHECKS.update({
+    "C15": ("model_checking", "bounded-exhaustive coherence matrix over (abstract value, construction route) instances plus explicit-state exploration of hash-table operation histories against an association-map model",
+            "(a) every ordered pair of instances of a catalogue of abstract values x construction routes (integers around the fixnum/bignum "
+            "boundary through different arithmetic paths, ratios, flonums incl. -0.0/NaN, complex, characters, strings by 20 routes incl. "
+            "width-changing string-set! and a byte store shared at an offset, symbols, nested lists/vectors/bytevectors/records) is decided by "
+            "native equal?, (scheme base) equal?, eqv?, hash, string-hash, string-ci-hash and compared with abstract identity; reflexivity, "
+            "symmetry, transitivity and equal? => same hash are checked on the matrix; a cyclic family (oracle: bisimulation) and a depth "
+            "family around the 10000-level bound. (b) explicit-state exploration of table histories: all operation sequences of length <= 3 "
+            "(4 thorough) over 6 collision-forcing keys from tables pre-filled to both sides of every growth threshold, 5 equivalences "
+            "(eq?, eqv?, equal?, string=?, string-ci=?), SRFI 69 and SRFI 125 names, every observation (ref, size, keys, values, walk, fold, "
+            "copy) compared with mc/models/maps.py after every step.",
+            "Keys and values are from a small alphabet; histories beyond the stated length are covered only through the pre-filled "
+            "starting states. One known finding (string-ci-hash ASCII folding) is listed in known_findings.json.", "DESIGN.md §4 C15"),
+    "C18": ("model_checking", "explicit-state exploration of container operation histories replayed on fresh objects against boring Python models, plus bounded-exhaustive enumeration of sort inputs with an independent checker",
+            "(a) sorts: every sequence of length <= 8 over 3 keys tagged with positions plus seven adversarial families at every length "
+            "0..300 (0..2000 thorough) through every SRFI 95 / SRFI 132 entry point (sort, sort!, list-sort, vector-sort(!), stable "
+            "variants, merge(!), sorted?, delete-duplicates, median/selection); verdict (permutation, ordered, stable where promised, input "
+            "untouched where promised) by a counting-sort based checker that shares nothing with the sort code. (b) containers: every "
+            "operation history of length <= 4 (5 thorough) over a small collision-forcing alphabet for SRFI 113 sets/bags, 146 mappings "
+            "and hashmaps, 117 list queues, 134 ideques, 101 random-access lists, (chibi iset): each history replayed on a fresh object "
+            "and compared step by step with a Python set / Counter / dict / list model, every earlier persistent version re-observed after "
+            "every step, and the red-black / size invariants validated. (c) the pure SRFI 1 / SRFI 133 procedures on all lists / vectors of "
+            "length <= 4 over {0,1,2}.",
+            "Element alphabets are small; comparison procedures are total orders or the stated weak orders only.", "DESIGN.md §4 C18"),
+    "C19": ("exploration", "bounded-exhaustive enumeration of codec inputs (round trips against CPython reference codecs) and of hostile texts on an ASan build",
+            "enc: base64 / quoted-printable / uri-encode on every byte string of a finite family through every variant (bytevector, "
+            "string, port), compared with CPython base64 / quopri / urllib and checked for RFC legality, decode(encode(x)) = x. hostile: every "
+            "decoder on every string of length <= 6 over 10-symbol hostile alphabets (ASan, watchdog): a value or a catchable error. json: "
+            "every value of depth <= 3 over an atom set written, parsed by CPython strict json and read back; every \\uXXXX escape and "
+            "surrogate pair; every text up to length 4 (5) over a 22-symbol alphabet and every token string up to 4 (5) tokens against CPython "
+            "json (only RFC 8259-valid texts are asserted), nesting to 10^5. csv: every table <= 2x2 (3x2) over 6 (9) cells written and parsed "
+            "back under the documented grammars. acc: every (scheme bytevector) / (chibi bytevector) / (srfi 160) numeric accessor x "
+            "endianness x every offset in [-1, len] x a value lattice against int.from_bytes / struct (out-of-range must raise). utf: "
+            "utf8/utf16/utf32 conversions on every byte string <= 3 (4) over a 26-byte alphabet against CPython's strict decoders.",
+            "CPython's codecs are the reference; JSON numbers beyond 2^53 and texts invalid under RFC 8259 are not asserted. One known "
+            "finding (uri-encode above U+00FF) is listed in known_findings.json.", "DESIGN.md §4 C19"),
+})
+
 NOT_YET = {}
 
 
